@@ -35,31 +35,6 @@ fn tok(v: &PropertyValue) -> String {
     }
 }
 
-fn untok(t: &str) -> PropertyValue {
-    if t == "null" {
-        return PropertyValue::Null;
-    }
-    let (p, r) = t.split_at(2);
-    match p {
-        "i:" => PropertyValue::Integer(r.parse().unwrap()),
-        "s:" => PropertyValue::String(r.to_string()),
-        "f:" => PropertyValue::Float(r.parse().unwrap()),
-        "b:" => PropertyValue::Boolean(r == "true"),
-        "o:" => {
-            if let Some(x) = r.strip_prefix("dt:") {
-                PropertyValue::DateTime(x.parse().unwrap())
-            } else if let Some(x) = r.strip_prefix("arr:") {
-                PropertyValue::Array(x.split(',').filter(|s| !s.is_empty()).map(untok).collect())
-            } else if let Some(x) = r.strip_prefix("vec:") {
-                PropertyValue::Vector(x.split(',').filter(|s| !s.is_empty()).map(|s| s.parse().unwrap()).collect())
-            } else {
-                panic!("bad token {t}")
-            }
-        }
-        _ => panic!("bad token {t}"),
-    }
-}
-
 /// the value a bulk load writes at `row` (ColumnMap!Val)
 fn fill_val(kind: &str, row: usize) -> PropertyValue {
     match kind {
@@ -475,7 +450,7 @@ fn run_random(sid: &str, seed: u64, nev: usize, tr: &mut Trace, cov: &mut Cov) -
     let mut since_scan = 0usize;
     let mut dead = false;
 
-    let mut do_fill = |sess: &mut Sess, rng: &mut StdRng, tr: &mut Trace, cov: &mut Cov, f: FillRec| -> Res<bool> {
+    let do_fill = |sess: &mut Sess, rng: &mut StdRng, tr: &mut Trace, cov: &mut Cov, f: FillRec| -> Res<bool> {
         let order = *pick(rng, &["asc", "asc", "desc", "shuffle"]);
         let g0 = sess.geom(&f.key);
         let r = sess.fill(&f, order, rng);
